@@ -1,7 +1,9 @@
 // C07 part "sched" - exhaustive exploration of thread schedules (engine E3).
 //
 // T in {2,3} threads, each: construct its Stepper (stream t) on ONE shared CoreParams (step
-// collector + recorder, ActionDiagnostic, StepDiagnostic attached), then transport its events.
+// collector + recorder or SimpleCalo, ActionDiagnostic, StepDiagnostic attached; variants with
+// re-indexing by particle type / by action, a field+MSC along-step and the StatusChecker, see
+// c07_common.hh), then transport its events.
 // Exactly one thread runs at a time (engine/sched.hh); at every scheduling point - the
 // CELERITAS_VERIF yield hooks before each begin-run / step action, around the lazy
 // StreamStore allocation, inside host "atomic" read-modify-writes, and every pthread mutex
@@ -9,15 +11,58 @@
 // (preemptions) from "run the current thread on" are executed, for every assignment of the
 // events to the streams.  Oracle: per-event step histories and the shared tallies equal the
 // serial single-stream run; no deadlock, livelock, exception or crash.
+// The atomic read-modify-writes are budgeted per thread AND per kind: the hook is re-tagged
+// "atomic-rmw@<action>" while a tallying action (ActionDiagnostic, StepDiagnostic, the
+// post-step gather that feeds SimpleCalo) runs, so that the thread-private atomics (track-id
+// counter, secondary stack) cannot use up the scheduling points of the shared tallies.
 #include <thread>
 
 #include "corecel/sys/VerifHooks.hh"
 #include "engine/sched.hh"
 #include "harness/c07_common.hh"
 
+// Which step action a thread is executing: the "step-action" hook fires before every action
+// of the (identical, never skipping: slots >= 2) sequence, so counting them modulo the
+// sequence length gives the index.
+static std::vector<char const*> g_step_action_tag;  // per step action: nullptr or re-tag
+static thread_local long tl_step_actions = -1;
+static thread_local bool tl_in_step = false;
+
 static void hook(char const* tag)
 {
+    if (tag[0] == 's' && std::strcmp(tag, "step-action") == 0)
+    {
+        ++tl_step_actions;
+        tl_in_step = true;
+    }
+    else if (tl_in_step && !g_step_action_tag.empty() && std::strcmp(tag, "atomic-rmw") == 0)
+    {
+        if (char const* t = g_step_action_tag[size_t(tl_step_actions) % g_step_action_tag.size()])
+            tag = t;
+    }
     vf::sched::point(tag);
+}
+
+// the step-action sequence of a problem in execution order (order(), then action id), as
+// ActionSequence builds it; entries: the re-tag for atomics inside tallying actions
+static std::vector<char const*> step_action_tags(LoopProblem const& P)
+{
+    auto const& reg = *P.core->action_reg();
+    std::vector<std::tuple<int, unsigned, std::string>> seq;
+    for (auto aid : range(ActionId{reg.num_actions()}))
+        if (auto const* a = dynamic_cast<CoreStepActionInterface const*>(reg.action(aid).get()))
+            seq.emplace_back(int(a->order()), aid.unchecked_get(), std::string(reg.id_to_label(aid)));
+    std::sort(seq.begin(), seq.end());
+    std::vector<char const*> out;
+    for (auto const& t : seq)
+    {
+        std::string const& l = std::get<2>(t);
+        out.push_back(l == "action-diagnostic" ? "atomic-rmw@action-diagnostic"
+                      : l == "step-diagnostic" ? "atomic-rmw@step-diagnostic"
+                      : l == "step-gather-post" ? "atomic-rmw@step-gather-post"
+                                                : nullptr);
+    }
+    return out;
 }
 
 struct Case
@@ -44,7 +89,10 @@ static ExecResult execute(Variant const& v, Case const& cs, unsigned slots, Choi
     out.ok.assign(cs.assign.size(), 1);
     out.errs.resize(cs.T);
     vf::sched::begin(int(cs.T), &c);
+    g_step_action_tag = step_action_tags(*P);
     auto body = [&](unsigned t) {
+        tl_step_actions = -1;
+        tl_in_step = false;
         vf::sched::thread_begin(int(t));
         try
         {
@@ -88,20 +136,39 @@ int main(int argc, char** argv)
 {
     vf::Run R(argc, argv, "C07", "c07_sched");
     bool const thorough = R.thorough();
-    int const bound = thorough ? 2 : 1;
     celeritas::verif::g_yield = &hook;
     auto& budget = vf::sched::g.tag_budget;
-    budget["begin-run-action"] = 1000;
-    budget["streamstore-state-check"] = 6;
-    budget["streamstore-state-alloc"] = 6;
-    budget["mutex-lock"] = 40;
-    budget["mutex-unlock"] = 40;
-    budget["step-action"] = thorough ? 60 : 30;
-    budget["atomic-rmw"] = thorough ? 16 : 8;
+    // per-thread budgets of the hot scheduling points; "small" = quick tier
+    auto set_budgets = [&](bool large) {
+        budget["begin-run-action"] = 1000;
+        budget["streamstore-state-check"] = 6;
+        budget["streamstore-state-alloc"] = 6;
+        budget["mutex-lock"] = 40;
+        budget["mutex-unlock"] = 40;
+        budget["step-action"] = large ? 60 : 30;
+        budget["atomic-rmw"] = large ? 16 : 8;
+        // shared tallies: their own budgets (see hook())
+        budget["atomic-rmw@action-diagnostic"] = large ? 8 : 4;
+        budget["atomic-rmw@step-diagnostic"] = large ? 8 : 4;
+        budget["atomic-rmw@step-gather-post"] = large ? 8 : 4;
+    };
+    // passes: quick    = <= 1 preemption, small budgets
+    //         thorough = <= 2 preemptions with the small budgets for the two-thread roots,
+    //                    and <= 1 preemption with the doubled budgets for all roots
+    struct Pass
+    {
+        int bound;
+        bool large;
+        bool only_two_threads;
+    };
+    std::vector<Pass> passes;
+    if (thorough)
+        passes = {{2, false, true}, {1, true, false}};
+    else
+        passes = {{1, false, false}};
+    set_budgets(false);
 
-    std::vector<Variant> variants = {{"rec", false, TrackOrder::none},
-                                     {"calo", true, TrackOrder::init_charge},
-                                     {"recsort", false, TrackOrder::reindex_particle_type}};
+    std::vector<Variant> variants = all_variants();
     std::vector<Case> cases;
     for (unsigned T : {2u, 3u})
     {
@@ -129,25 +196,34 @@ int main(int argc, char** argv)
     }
     unsigned const slots = 2;
     // serial warm-up: initialise every function-local static before scheduling threads
+    for (auto const& v : variants)
     {
-        Variant v{"rec", false, TrackOrder::none};
         auto Ps = make_problem(v, 1, slots);
         auto st = Ps->make_stepper(0);
         bool ok;
         transport(*Ps, *st, 0, 0, &ok);
+        for (char const* t : step_action_tags(*Ps))
+            if (t)
+                R.tag(std::string("variant-has:") + v.name + ":" + t);
     }
     uint64_t outer = 0;
+    for (auto const& pass : passes)
     for (auto const& v : variants)
         for (auto const& cs : cases)
         {
+            if (pass.only_two_threads && cs.T != 2)
+                continue;
             if (!R.mine(outer++))
                 continue;
             if (R.expired())
                 break;
+            int const bound = pass.bound;
+            set_budgets(pass.large);
             std::string aid;
             for (unsigned s : cs.assign)
                 aid += std::to_string(s);
-            std::string root = fmt("sched:%s:T=%u:assign=%s", v.name, cs.T, aid.c_str());
+            std::string root = fmt("sched:%s:T=%u:assign=%s:B%d%s", v.name, cs.T, aid.c_str(),
+                                   bound, pass.large ? "L" : "S");
             if (R.replay() && R.replay_case().compare(0, root.size() + 1, root + "|") != 0)
                 continue;
             // serial reference
@@ -218,6 +294,10 @@ int main(int argc, char** argv)
                 if (c.deviations() > 0)
                     R.nontrivial(h);
                 R.maxi("max_choice_points", c.points().size());
+                for (unsigned t = 0; t < cs.T; ++t)
+                    for (auto const& kv : vf::sched::g.tag_seen[t])
+                        if (kv.first.find('@') != std::string::npos)
+                            R.maxi(("per_thread_points_seen:" + kv.first).c_str(), kv.second);
                 return !((st.executions & 15) == 0 && R.expired());
             };
             if (R.replay())
@@ -234,8 +314,9 @@ int main(int argc, char** argv)
                 explore(body, on_exec, bound, &st);
             R.count("roots");
         }
-    R.note("preemption_bound", std::to_string(bound));
-    R.sample("sched:rec:T=2:assign=010|0.0.0.1 = two streams; events 0,2 on stream 0, event 1 on "
+    R.note("preemption_bound", thorough ? "2 (two threads, small budgets) / 1 (all roots, doubled budgets)"
+                                        : "1");
+    R.sample("sched:rec:T=2:assign=010:B1S|0.0.0.1 = two streams (<= 1 preemption, small budgets); events 0,2 on stream 0, event 1 on "
              "stream 1; schedule: run thread 0, preempt it at its 4th scheduling point in favour of "
              "thread 1, then run to completion");
     return R.finish();
